@@ -14,22 +14,25 @@
     only where stated): Q, R, Z/p ... are instances.
 
     Modelled class (the hypotheses of C16_enrichment_rate, per mapped reaction): mass action (rate = product of
-    its arguments: every substrate once + unlabelled constants), no compound twice on the substrate side (C05's
-    homodimer finding; the statements hold for EITHER form [rk] of the isotopomer mapper's rate-argument renaming,
-    the dict form of the tree and the per-occurrence form of fixes/C05-homodimer.diff -- for the latter the
-    constants must not be listed in label_variables, the conjunct [rk = ReplPositional -> getN a lv = None]), every compound of the reaction labelled (the linear mapper raises KeyError otherwise),
+    its arguments: every unit of the substrate side once + unlabelled constants); stoichiometric coefficients of any
+    magnitude on the product side (B -> 2 C) and -- for the per-occurrence form [rk = ReplPositional] of the isotopomer
+    mapper's rate-argument renaming, which is the tree since 1a03052 -- also on the substrate side (2 A -> B, 3 A -> B,
+    2 A + B -> C); for the dict form (C05's repaired homodimer defect) no compound twice on the substrate side: the
+    disjunct [rk = ReplPositional \/ NoDup bs]; the constants must not be listed in label_variables for the
+    per-occurrence form (conjunct [rk = ReplPositional -> getN a lv = None]); every compound of the reaction labelled (the linear mapper raises KeyError otherwise),
     the map a bijection of the positions 0 .. max(substrate atoms, product atoms)-1 (atoms are neither
     duplicated nor lost; merges and splits of COMPOUNDS, external positions and non-involutive permutations are
     covered), the supplied pool sizes / fluxes are those of the isotopomer state (pool = sum of the isotopomers,
     flux = rate at the pools).  Every reaction that touches a labelled compound is mapped. *)
 From Coq Require Import List ZArith NArith Bool Arith Permutation Ring.
 From MxlBase Require Import ListX.
-From Label Require Import LModel Iso Linear GenLabelFacts Algebra IsoProofs IsoPropsZ LinearProofs LinearProps.
+From Label Require Import LModel Iso Linear GenLabelFacts Algebra IsoProofs IsoPropsZ LinearProofs LinearProps LinearCoef.
 Import ListNotations.
 
 Theorem C16_facts_pinned :
   f_lin_dir gen_label_facts = DirDocumented /\ f_lin_helpers gen_label_facts = true /\
-  f_iso_dir gen_label_facts = IsoDocumented /\ f_ext_bit gen_label_facts = Some true.
+  f_iso_dir gen_label_facts = IsoDocumented /\ f_ext_bit gen_label_facts = Some true /\
+  f_lin_expand gen_label_facts = ExpDuplicated.
 Proof. vm_compute. repeat split. Qed.
 Print Assumptions C16_facts_pinned.
 
@@ -51,7 +54,7 @@ Theorem C16_enrichment_rate :
                 let r := fst rm in
                 let bs := subs_of (r_stoich r) in let bp := prods_of (r_stoich r) in
                 exists (extra : list N) (mun : list nat),
-                  r_fn r = FProd /\ Permutation (r_args r) (bs ++ extra) /\ NoDup (map fst (r_stoich r)) /\ NoDup bs /\
+                  r_fn r = FProd /\ Permutation (r_args r) (bs ++ extra) /\ NoDup (map fst (r_stoich r)) /\ (rk = ReplPositional \/ NoDup bs) /\
                   (forall a, In a extra -> ~ In a bs /\ ~ In a bp /\ nlab lv a = O /\ (rk = ReplPositional -> getN a lv = None)) /\
                   (forall c, In c (bs ++ bp) -> O < nlab lv c) /\
                   snd rm = map Z.of_nat mun /\
@@ -78,6 +81,95 @@ Theorem C16_enrichment_rate :
             = rsub (rmul dm P) (rmul m dP)).
 Proof. exact enrichment_rate_steady. Qed.
 Print Assumptions C16_enrichment_rate.
+
+(** C16 on the tree as it is, with NO restriction on repeated substrates: the isotopomer mapper's renaming block is the
+    REGENERATED fact [f_repl gen_label_facts] (the statement type-checks only while that fact is ReplPositional, the
+    per-occurrence form), so homodimers and higher coefficients on the substrate side (2 A -> B, 3 A -> B, 2 A + B -> C)
+    are inside: every unit of the stoichiometry stands once in the mass-action rate ([Permutation (r_args r) (bs ++ extra)]
+    with [bs] the duplicate list), each copy of a substrate position is drained by the flux, each copy of a product
+    receives label.  The constants of the rate ([extra]) are not listed in label_variables. *)
+Theorem C16_enrichment_rate_any_coefficients :
+  forall (R : Type) (rO rI : R) (radd rmul rsub : R -> R -> R) (ropp rinv : R -> R) (ofZ : Z -> R),
+    ring_theory rO rI radd rmul rsub ropp eq ->
+    ofZ 0%Z = rO -> ofZ 1%Z = rI ->
+    (forall a b : Z, ofZ (a + b)%Z = radd (ofZ a) (ofZ b)) ->
+    (forall a : Z, ofZ (- a)%Z = ropp (ofZ a)) ->
+    forall (lv : label_vars) (rms : list (brxn * list Z)) (envI envL : lname -> R)
+           (isos : list (N * list lname)) (irs lrs : list (list lrxn)),
+      Forall (fun rm =>
+                let r := fst rm in
+                let bs := subs_of (r_stoich r) in let bp := prods_of (r_stoich r) in
+                exists (extra : list N) (mun : list nat),
+                  r_fn r = FProd /\ Permutation (r_args r) (bs ++ extra) /\ NoDup (map fst (r_stoich r)) /\
+                  (forall a, In a extra -> ~ In a bs /\ ~ In a bp /\ getN a lv = None) /\
+                  (forall c, In c (bs ++ bp) -> O < nlab lv c) /\
+                  snd rm = map Z.of_nat mun /\
+                  Permutation mun (seq O (Nat.max (total (labels_per lv bs)) (total (labels_per lv bp)))) /\
+                  envL (LPlain (r_name r)) = prodR R rI rmul (map (benv R rO radd lv envI) (r_args r))) rms ->
+      collect (map (fun rm => create_iso_rxns (ext_bit_of gen_label_facts) (f_repl gen_label_facts) lv (fst rm) (snd rm)) rms) = Ok irs ->
+      lin_isotopomers lv = Ok isos ->
+      collect (map (fun rm => lin_rxns_x (f_lin_expand gen_label_facts) (f_lin_dir gen_label_facts) isos (fst rm) (snd rm)) rms) = Ok lrs ->
+      (forall c, O < nlab lv c -> envL (LPlain c) = benv R rO radd lv envI c) ->
+      (forall c j, j < nlab lv c ->
+         rmul (envL (LPos c (Z.of_nat j))) (envL (LPlain c)) = marg R rO rI radd rmul envI lv c j) ->
+      envL LExt = rI ->
+      forall c i, i < nlab lv c ->
+        let P := envL (LPlain c) in
+        let m := marg R rO rI radd rmul envI lv c i in
+        let dm := sumR R rO radd (map (fun bits => rmul (bit R rO rI bits i)
+                                                       (deriv R rO rI radd rmul ropp rinv ofZ envI (concat irs) (iso_name c bits)))
+                                      (all_patterns (nlab lv c))) in
+        let dP := sumR R rO radd (map (fun bits => deriv R rO rI radd rmul ropp rinv ofZ envI (concat irs) (iso_name c bits))
+                                      (all_patterns (nlab lv c))) in
+        deriv R rO rI radd rmul ropp rinv ofZ envL (concat lrs) (LPos c (Z.of_nat i)) = rmul (rinv P) dm
+        /\ (rmul P (rinv P) = rI -> dP = rO ->
+            rmul (deriv R rO rI radd rmul ropp rinv ofZ envL (concat lrs) (LPos c (Z.of_nat i))) (rmul P P)
+            = rsub (rmul dm P) (rmul m dP)).
+Proof. exact enrichment_rate_steady_positional. Qed.
+Print Assumptions C16_enrichment_rate_any_coefficients.
+
+(** the change seeded as C16-4 (build_model iterating the {compound: coefficient} dicts instead of the duplicate lists,
+    fact value ExpKeysOnly) cannot be seen on coefficients +1 / -1: it builds the same per-position reactions, for any
+    map, any reading direction, any position dict *)
+Theorem C16_keys_only_same_on_unit_coefficients :
+  forall (dir : direction) (isos : list (N * list lname)) (r : brxn) (lmap : list Z),
+    (forall k v, In (k, v) (r_stoich r) -> v = 1%Z \/ v = (-1)%Z) ->
+    lin_rxns_x ExpKeysOnly dir isos r lmap = lin_rxns dir isos r lmap.
+Proof. exact keys_only_same_on_unit_coefficients. Qed.
+Print Assumptions C16_keys_only_same_on_unit_coefficients.
+
+(** ... and it breaks the property as soon as a coefficient has magnitude 2: regression witness B(2) -> 2 C(1), identity
+    map, all of B in isotopomer 01, inside the modelled class of C16_enrichment_rate (no compound twice on the substrate
+    side): every hypothesis holds, the isotopomer model raises the enrichment of C's position at rate 1 and so does the
+    linear model with the duplicate lists ([lrxns_dup]); with the keys-only expansion C's position is listed once, B's
+    second position is sent to EXT and the linear rate is 0 *)
+Theorem C16_keys_only_expansion_refuted :
+  forall rk : repl_kind,
+  exists (lv : label_vars) (r : brxn) (extra : list N) (mun : list nat) (envI envL : lname -> Z)
+         (isos : list (N * list lname)) (irxns lrxns lrxns_dup : list lrxn) (c : N) (i : nat),
+    let bs := subs_of (r_stoich r) in let bp := prods_of (r_stoich r) in
+    r_fn r = FProd /\ Permutation (r_args r) (bs ++ extra) /\ NoDup (map fst (r_stoich r)) /\ NoDup bs /\
+    (forall a, In a extra -> ~ In a bs /\ ~ In a bp /\ nlab lv a = 0 /\ (rk = ReplPositional -> getN a lv = None)) /\
+    (forall c, In c (bs ++ bp) -> 0 < nlab lv c) /\
+    Permutation mun (seq 0 (Nat.max (total (labels_per lv bs)) (total (labels_per lv bp)))) /\
+    create_iso_rxns true rk lv r (map Z.of_nat mun) = Ok irxns /\
+    lin_isotopomers lv = Ok isos /\
+    lin_rxns_x ExpKeysOnly DirDocumented isos r (map Z.of_nat mun) = Ok lrxns /\
+    lin_rxns_x ExpDuplicated DirDocumented isos r (map Z.of_nat mun) = Ok lrxns_dup /\
+    (forall c, In c (bs ++ bp) -> envL (LPlain c) = benv Z 0%Z Z.add lv envI c /\ (envL (LPlain c) * idZ (envL (LPlain c)) = 1)%Z) /\
+    envL (LPlain (r_name r)) = prodR Z 1%Z Z.mul (map (benv Z 0%Z Z.add lv envI) (r_args r)) /\
+    (forall c j, In c bs -> j < nlab lv c ->
+       (envL (LPos c (Z.of_nat j)) * envL (LPlain c))%Z = marg Z 0%Z 1%Z Z.add Z.mul envI lv c j) /\
+    envL LExt = 1%Z /\
+    In c (bs ++ bp) /\ i < nlab lv c /\
+    deriv Z 0%Z 1%Z Z.add Z.mul Z.opp idZ idZ envL lrxns (LPos c (Z.of_nat i)) = 0%Z /\
+    deriv Z 0%Z 1%Z Z.add Z.mul Z.opp idZ idZ envL lrxns_dup (LPos c (Z.of_nat i)) = 1%Z /\
+    (idZ (envL (LPlain c))
+     * sumR Z 0%Z Z.add (map (fun bits => bit Z 0%Z 1%Z bits i
+                                          * deriv Z 0%Z 1%Z Z.add Z.mul Z.opp idZ idZ envI irxns (iso_name c bits))
+                             (all_patterns (nlab lv c))))%Z = 1%Z.
+Proof. exact keys_only_refuted. Qed.
+Print Assumptions C16_keys_only_expansion_refuted.
 
 (** regression witness for the PRE-REPAIR reading direction (fact value DirInverse: res[map[j]] = substrate j,
     the inverse permutation): with that fact the one-reaction statement fails for the 3-cycle [1;2;0] -- all
@@ -162,7 +254,7 @@ Example C16_nonvacuous :
             let r := fst rm in
             let bs := subs_of (r_stoich r) in let bp := prods_of (r_stoich r) in
             exists (extra : list N) (mun : list nat),
-              r_fn r = FProd /\ Permutation (r_args r) (bs ++ extra) /\ NoDup (map fst (r_stoich r)) /\ NoDup bs /\
+              r_fn r = FProd /\ Permutation (r_args r) (bs ++ extra) /\ NoDup (map fst (r_stoich r)) /\ (rk = ReplPositional \/ NoDup bs) /\
               (forall a, In a extra -> ~ In a bs /\ ~ In a bp /\ nlab rf_lv a = O /\ (rk = ReplPositional -> getN a rf_lv = None)) /\
               (forall c, In c (bs ++ bp) -> O < nlab rf_lv c) /\
               snd rm = map Z.of_nat mun /\
@@ -177,3 +269,33 @@ Example C16_nonvacuous :
   rf_envL LExt = 1%Z.
 Proof. exact enrichment_nonvacuous. Qed.
 Print Assumptions C16_nonvacuous.
+
+(** non-vacuity of C16_enrichment_rate_any_coefficients for a homodimer: 2 A(1) -> B(2), rate k*A*A, map [1;0], A fully
+    labelled: A stands twice on the substrate side, every hypothesis holds, both models are built (4 isotopomer reactions,
+    2 label transfers), and the linear model drains A's position at rate -2 (both copies) and feeds B's position 1 at rate 1 *)
+Example C16_homodimer_nonvacuous :
+  let rms := [(hd2_rxn, map Z.of_nat hd2_map)] in
+  ~ NoDup (subs_of (r_stoich hd2_rxn)) /\
+  Forall (fun rm =>
+            let r := fst rm in
+            let bs := subs_of (r_stoich r) in let bp := prods_of (r_stoich r) in
+            exists (extra : list N) (mun : list nat),
+              r_fn r = FProd /\ Permutation (r_args r) (bs ++ extra) /\ NoDup (map fst (r_stoich r)) /\
+              (forall a, In a extra -> ~ In a bs /\ ~ In a bp /\ getN a hd2_lv = None) /\
+              (forall c, In c (bs ++ bp) -> O < nlab hd2_lv c) /\
+              snd rm = map Z.of_nat mun /\
+              Permutation mun (seq O (Nat.max (total (labels_per hd2_lv bs)) (total (labels_per hd2_lv bp)))) /\
+              hd2_envL (LPlain (r_name r)) = prodR Z 1%Z Z.mul (map (benv Z 0%Z Z.add hd2_lv hd2_envI) (r_args r))) rms /\
+  (exists irs, collect (map (fun rm => create_iso_rxns true ReplPositional hd2_lv (fst rm) (snd rm)) rms) = Ok irs /\ length (concat irs) = 4) /\
+  (exists isos lrs, lin_isotopomers hd2_lv = Ok isos /\
+                    collect (map (fun rm => lin_rxns DirDocumented isos (fst rm) (snd rm)) rms) = Ok lrs /\ length (concat lrs) = 2) /\
+  (forall c, O < nlab hd2_lv c -> hd2_envL (LPlain c) = benv Z 0%Z Z.add hd2_lv hd2_envI c) /\
+  (forall c j, j < nlab hd2_lv c ->
+     (hd2_envL (LPos c (Z.of_nat j)) * hd2_envL (LPlain c))%Z = marg Z 0%Z 1%Z Z.add Z.mul hd2_envI hd2_lv c j) /\
+  hd2_envL LExt = 1%Z /\
+  (forall isos lrs, lin_isotopomers hd2_lv = Ok isos ->
+                    collect (map (fun rm => lin_rxns DirDocumented isos (fst rm) (snd rm)) rms) = Ok lrs ->
+                    deriv Z 0%Z 1%Z Z.add Z.mul Z.opp idZ idZ hd2_envL (concat lrs) (LPos 1%N 0%Z) = (-2)%Z /\
+                    deriv Z 0%Z 1%Z Z.add Z.mul Z.opp idZ idZ hd2_envL (concat lrs) (LPos 2%N 1%Z) = 1%Z).
+Proof. exact enrichment_homodimer_nonvacuous. Qed.
+Print Assumptions C16_homodimer_nonvacuous.
